@@ -124,6 +124,16 @@ def str_cases():
         yield s, "chars", (), "r.chars()", ("list", list(s))
         for k in (0, 1, 3):
             yield s, "repeat", (k,), f"r * {k}", ("val", "str", s * k)
+            yield s, "repeat-left", (k,), f"{k} * r", ("val", "str", s * k)
+            yield s, "repeat-bigint", (k,), f"r * B{k}", ("val", "str", s * k)
+            yield s, "repeat-bigint-left", (k,), f"B{k} * r", ("val", "str", s * k)
+        # a count that is negative or does not fit the machine's size type is outside the domain, whatever its low bits are
+        for k in (-1, -3, -2 ** 31):
+            yield s, "repeat", (k,), f"r * (0 - {-k})", Undefined
+        for k in (-1, 2 ** 64, 2 ** 64 + 2, 2 ** 65 + 1, 2 ** 127 - 1, -2 ** 64 + 3, -2 ** 127 + 1, -2 ** 127):
+            e = f"B{k}" if k >= 0 else (f"(B0 - B{-k})" if k > -2 ** 127 else f"(B0 - B{2 ** 127 - 1} - B1)")
+            yield s, "repeat-bigint", (k,), f"r * {e}", Undefined
+            yield s, "repeat-bigint-left", (k,), f"{e} * r", Undefined
         yield s, "concat", ("s",), "r + r", ("val", "str", s + s)
         yield s, "concat", ("int",), "r + 7", ("val", "str", s + "7")
         yield s, "concat", ("rint",), "7 + r", ("val", "str", "7" + s)
